@@ -111,6 +111,44 @@ pub fn extensions<M: RefModel>(m: &M, s: &M::State, k: usize) -> Vec<Vec<M::Acti
     out
 }
 
+/// As `extensions`, but at extension depth d (0-based) only actions with `keep(d, action)`.
+pub fn extensions_filtered<M: RefModel>(m: &M, s: &M::State, k: usize, keep: &(dyn Fn(usize, &M::Action) -> bool + Sync)) -> Vec<Vec<M::Action>> {
+    let mut out: Vec<Vec<M::Action>> = vec![vec![]];
+    let mut frontier: Vec<(Vec<M::Action>, M::State)> = vec![(vec![], s.clone())];
+    for d in 0..k {
+        let mut next = vec![];
+        for (tr, st) in &frontier {
+            for a in m.actions(st) {
+                if !keep(d, &a) {
+                    continue;
+                }
+                if let Some(ns) = m.step(st, &a) {
+                    let mut t = tr.clone();
+                    t.push(a);
+                    out.push(t.clone());
+                    next.push((t, ns));
+                }
+            }
+        }
+        frontier = next;
+    }
+    out
+}
+
+/// Replay every trace of P · Σ_0 · Σ_1 ... (Σ_d = the actions kept at extension depth d).
+pub fn conform_filtered<M: RefModel>(m: &M, ex: &Explored<M>, k: usize, keep: &(dyn Fn(usize, &M::Action) -> bool + Sync), check: impl Fn(&[M::Action]) + Sync) -> usize {
+    let n = AtomicUsize::new(0);
+    ex.cover.par_iter().for_each(|(path, st)| {
+        for ext in extensions_filtered(m, st, k, keep) {
+            let mut t = path.clone();
+            t.extend(ext);
+            check(&t);
+            n.fetch_add(1, Ordering::Relaxed);
+        }
+    });
+    n.load(Ordering::Relaxed)
+}
+
 /// Replay every trace of P · Σ^≤k through `check` (in parallel). Returns the number of traces.
 pub fn conform<M: RefModel>(m: &M, ex: &Explored<M>, k: usize, check: impl Fn(&[M::Action]) + Sync) -> usize {
     let n = AtomicUsize::new(0);
